@@ -256,6 +256,70 @@ def rule_refix(chk, prefix="C04.refix"):
 
 
 
+def rule_forward_declaration(chk):
+    """generate_function_inner read twice on a model function (with and without a return semantic, attributes, two
+    parameters): as a prototype and as a definition. The front end takes a function's signature - return type, return
+    semantic, parameter list - from its FIRST declaration, so the prototype must carry exactly the signature the
+    definition carries; only the body differs. (Attributes are read from the definition and may be left off.)"""
+    import interp as I
+    f = chk.facts
+    fn = f.fn("generate_function_inner", "rssl_hlsl")
+    if not fn:
+        chk.note("C04.fwd: generate_function_inner not found; not decided")
+        return
+    ok = lambda v: I.Enum("Result", "Ok", {"0": v})
+    opt = lambda v: I.Enum("Option", "None") if v is None else I.Enum("Option", "Some", {"0": v})
+
+    def deref(v):
+        return v.get() if isinstance(v, I.Ref) else v
+    bad = {}
+    n = 0
+    for sem in (None, "SV_Target1"):
+        for attrs in ([], [I.Enum("FunctionAttribute", "WaveSize", {"0": I.Opaque("expr")})]):
+            sig = I.Enum("FunctionSignature", None, {"return_type": I.Enum("FunctionReturn", None, {"return_type": I.Enum("TypeId", None, {"0": 5}), "semantic": opt(None if sem is None else I.Enum("Semantic", "User", {"0": sem}))}),
+                                                    "template_params": [], "param_types": [I.Opaque("pt0"), I.Opaque("pt1")]})
+            impl = I.Enum("FunctionImplementation", None, {"params": [I.Enum("FunctionParam", "Tagged", {"tag": "p0"}), I.Enum("FunctionParam", "Tagged", {"tag": "p1"})],
+                                                          "scope_block": I.Enum("ScopeBlock", None, {"0": [I.Enum("Statement", "Tagged", {"tag": "s0"})], "1": I.Opaque("decls")}), "attributes": list(attrs)})
+            ext = {"FunctionRegistry::get_function_signature": lambda a, sig=sig: sig, "FunctionRegistry::get_function_implementation": lambda a, impl=impl: opt(impl),
+                   "FunctionRegistry::get_template_instantiation_data": lambda a: opt(None), "generate_type": lambda a: ok(I.Enum("Type", "Tagged", {"tag": "T%s" % deref(a[0]).fields["0"]})),
+                   "::get_function_name": lambda a: ok("fn"), "generate_function_param": lambda a: ok(I.Enum("FunctionParam", "Tagged", {"tag": "printed " + deref(a[0]).fields["tag"]})),
+                   "generate_statement": lambda a: ok(I.Enum("Statement", "Tagged", {"tag": "printed"})), "generate_expression": lambda a: ok(I.Enum("Expression", "Tagged", {"tag": "e"}))}
+            out = {}
+            for only_declare in (True, False):
+                ctx = I.Enum("GenerateContext", None, {"module": I.Enum("Module", None, {"function_registry": I.Opaque("function registry"), "type_registry": I.Opaque("type registry")}),
+                                                       "pixel_entry_for_mesh": opt(None), "name_map": I.Opaque("names")})
+                try:
+                    r = I.Interp(f, max_depth=8, extern=ext).apply(fn, [I.Enum("FunctionId", None, {"0": 4}), only_declare, ctx])
+                except I.Unknown as e:
+                    if "panicking" in str(e):
+                        bad.setdefault("total", "generate_function_inner aborts (%s)" % str(e)[:60])
+                        break
+                    chk.unreadable("C04.fwd/readable", "generate_function_inner on a model function", str(e)[:100], where(fn))
+                    return
+                if not (isinstance(r, I.Enum) and r.variant == "Ok" and isinstance(r.fields.get("0"), I.Enum)):
+                    bad.setdefault("total", "generate_function_inner refuses the model function (%r)" % (r,))
+                    break
+                out[only_declare] = r.fields["0"].fields
+            if len(out) != 2:
+                continue
+            n += 1
+            d, b = out[True], out[False]
+            flat = lambda v: repr(v)
+            what = "a function %s a return semantic%s" % ("with" if sem else "without", " and an attribute" if attrs else "")
+            if not (isinstance(d.get("body"), I.Enum) and d["body"].variant == "None") or not (isinstance(b.get("body"), I.Enum) and b["body"].variant == "Some"):
+                bad.setdefault("body", "%s: the prototype %s a body, the definition %s" % (what, "has" if getattr(d.get("body"), "variant", "") == "Some" else "has no", "has one" if getattr(b.get("body"), "variant", "") == "Some" else "has none"))
+            rd, rb_ = d["returntype"].fields, b["returntype"].fields
+            if flat(rd["location_annotations"]) != flat(rb_["location_annotations"]) or (sem and sem not in flat(rd["location_annotations"])):
+                bad.setdefault("return-semantic", "%s: its prototype is written with return annotations %s, its definition with %s - the front end takes the signature from the first declaration, so re-reading the output loses or changes the semantic"
+                               % (what, flat(rd["location_annotations"])[:80], flat(rb_["location_annotations"])[:80]))
+            if flat(rd["return_type"]) != flat(rb_["return_type"]) or flat(d["params"]) != flat(b["params"]) or flat(d["name"]) != flat(b["name"]) or flat(d["template_params"]) != flat(b["template_params"]):
+                bad.setdefault("signature", "%s: prototype and definition differ in return type, name, parameters or template parameters" % what)
+    for k, text in (("body", "a prototype has no body, a definition has one"), ("return-semantic", "prototype and definition carry the same return semantic"),
+                    ("signature", "prototype and definition carry the same return type, name and parameters"), ("total", "no abort")):
+        chk.ob("C04.fwd/" + k, k not in bad, bad.get(k) or text, where(fn), sample={"aspect": k, "functions": n})
+    chk.floor("C04.floor/forward-declarations", n, 4, "model functions exported as prototype and as definition", where(fn))
+
+
 def run(chk):
     f = chk.facts
     rule_inlang(chk)
@@ -263,6 +327,7 @@ def run(chk):
     rule_reg(chk)
     rule_refix(chk)
     rule_decl_refix(chk)
+    rule_forward_declaration(chk)
     import c01
     c01.rule_intrinsic(chk, "C04")      # an intrinsic is exported under a name the front end declares with the same parameter lists
     import c09
